@@ -1,9 +1,103 @@
 import Driver.Json
-open Lean Drv
+import Model.Mle
+import Model.Generated.MleSite
+open Lean Drv Ens Ens.Mle
 
+/-! Driver for C12: the Prinz estimator model instantiated with `Float` (IEEE double).
+Doubles travel as their 64-bit patterns (JSON integers), so both sides see the same numbers. -/
 namespace Drv.C12
 
-def handle (op : String) (_req : Json) : Except String Json :=
-  throw s!"bad-op C12.{op}"
+def getF (j : Json) : Except String Float := do
+  let b ← getNat j
+  if b ≥ 2^64 then throw "bit pattern out of range" else pure (Float.ofBits (UInt64.ofNat b))
+
+def fJson (x : Float) : Json := natJson x.toBits.toNat
+
+def toMat (n : Nat) (rows : List (List Float)) : Except String (Mat Float n) := do
+  if rows.length ≠ n then throw "shape" else
+  if rows.any (fun r => r.length ≠ n) then throw "shape" else
+  pure (Vector.ofFn fun i => Vector.ofFn fun j => (rows.getD i.val []).getD j.val 0)
+
+def matJson {n} (X : Mat Float n) : Json :=
+  listJson (fun (r : Vector Float n) => listJson fJson r.toList) X.toList
+
+def vecJson {n} (x : Vec Float n) : Json := listJson fJson x.toList
+
+def errStr : Err → String
+  | .assertion => "assertion"
+  | .typeError => "type-error"
+  | .unbound => "unbound"
+
+def getImpl (j : Json) : Except String Impl := do
+  match ← getStr j with
+  | "py" => pure .py
+  | "compiled" => pure .compiled
+  | s => throw s!"bad impl {s}"
+
+/-- the constants of the two implementations (builders.py L315-316; libmsm.pyx L95-96) -/
+def params (impl : Impl) (tol : Float) (maxIter : Nat) : Params Float :=
+  match impl with
+  | .py =>
+    { sqrt := Float.sqrt
+      log := Float.log
+      tol := tol
+      maxIter := maxIter
+      impl := Impl.py
+      warnSwapped := Ens.Generated.MleSite.warnSwappedPy
+      rowAtol := 1e-8
+      rowRtol := 1e-5
+      piCheck := PiCheck.isclose 1e-8 1e-5 }
+  | .compiled =>
+    { sqrt := Float.sqrt
+      log := Float.log10
+      tol := tol
+      maxIter := maxIter
+      impl := Impl.compiled
+      warnSwapped := Ens.Generated.MleSite.warnSwappedPyx
+      rowAtol := 1e-16
+      rowRtol := 1e-5
+      piCheck := PiCheck.upper 1e-14 }
+
+def resultJson {n} (r : Result Float n) : Json :=
+  okJson (Json.mkObj [("T", matJson r.T), ("pi", vecJson r.pi), ("X", matJson r.X),
+    ("rs", vecJson r.rs), ("n_iter", natJson r.nIter), ("warned", Json.bool r.warned)])
+
+/-- output stage without the cap branch and without assertions (neighbouring iterates) -/
+def iterate {n} (P : Params Float) (C : Mat Float n) (k : Nat) : Json :=
+  match init C with
+  | .error e => errJson (errStr e)
+  | .ok (Crs, st0) =>
+    match sweepsN P.sqrt P.log C Crs k st0 with
+    | .error e => errJson (errStr e)
+    | .ok st =>
+      let T : Mat Float n := Vector.ofFn fun i => Vector.ofFn fun j => st.X.get i j / rowSumF st.X i
+      let tot := sumFin n (fun i => st.rs.get i)
+      let pi : Vec Float n := Vector.ofFn fun i => st.rs.get i / tot
+      okJson (Json.mkObj [("T", matJson T), ("pi", vecJson pi)])
+
+def handle (op : String) (req : Json) : Except String Json := do
+  match op with
+  | "run" =>
+    let n ← getNat (← field req "n")
+    let rows ← getList (getList getF) (← field req "C")
+    let C ← toMat n rows
+    let impl ← getImpl (← field req "impl")
+    let tol ← getF (← field req "tol")
+    let maxIter ← getNat (← field req "max_iter")
+    match run (params impl tol maxIter) C with
+    | .error e => pure (errJson (errStr e))
+    | .ok r => pure (resultJson r)
+  | "iterates" =>
+    let n ← getNat (← field req "n")
+    let rows ← getList (getList getF) (← field req "C")
+    let C ← toMat n rows
+    let impl ← getImpl (← field req "impl")
+    let ks ← getList getNat (← field req "ks")
+    let P := params impl 0 1
+    pure (okJson (listJson (fun k => iterate P C k) ks))
+  | "site" =>
+    pure (okJson (Json.mkObj [("py", Json.bool Ens.Generated.MleSite.warnSwappedPy),
+                              ("pyx", Json.bool Ens.Generated.MleSite.warnSwappedPyx)]))
+  | _ => throw s!"bad-op C12.{op}"
 
 end Drv.C12
